@@ -265,6 +265,32 @@ def product_cases(family):
                     for o in ELT_TYPES:
                         for faf in (0, 1):
                             out.append(dict(family="eltwise", code=code, a=a, b=b, o=o, faf=faf))
+    elif family == "avgpool":
+        # AVERAGE_POOL_2D stride sentences, only combinations whose reading is unambiguous (class says which sentence decides):
+        #  A  SAME, stride width 4/6, stride height <= 3                          -> "For stride width greater than 3, valid padding needs to be used" violated
+        #  B  SAME, stride width <= 3, stride height 4/5, one output row        -> every sentence satisfied ("Stride h must be between 1 and 3 when ofm height is greater than 1")
+        #  C  SAME/VALID, both strides <= 3                                      -> satisfied (control)
+        #  D  SAME, stride width <= 3, stride height 4/5, several output rows   -> stride h sentence violated
+        #  E  VALID, stride width 4/6 with the IFM width divisible by stride_w/2, stride height <= 3 -> satisfied (second alternative of the stride w sentence)
+        for (kh, kw) in ((1, 1), (2, 2), (3, 4), (5, 3)):
+            for sw in (4, 6):
+                for sh in (1, 2, 3):
+                    out.append(dict(family="avgpool", cls="A", pad="SAME", ih=6, iw=12, kh=kh, kw=kw, sh=sh, sw=sw, ok=False))
+                    out.append(dict(family="avgpool", cls="E", pad="VALID", ih=6, iw=12, kh=min(kh, 6), kw=kw, sh=sh, sw=sw, ok=True))
+            for sw in (1, 2, 3):
+                for sh in (4, 5):
+                    out.append(dict(family="avgpool", cls="B", pad="SAME", ih=sh, iw=12, kh=min(kh, sh), kw=kw, sh=sh, sw=sw, ok=True))
+                    out.append(dict(family="avgpool", cls="D", pad="SAME", ih=3 * sh, iw=12, kh=kh, kw=kw, sh=sh, sw=sw, ok=False))
+                for sh in (1, 3):
+                    out.append(dict(family="avgpool", cls="C", pad="SAME", ih=6, iw=12, kh=kh, kw=kw, sh=sh, sw=sw, ok=True))
+    elif family == "splitbatch":
+        # "OFM Tensor batch size must be 1 and each OFM must be taken from a single batch of the IFM" (SPLIT, SPLIT_V, UNPACK): decided by the batch of EVERY output
+        for b, sizes in ((1, [1]), (2, [1, 1]), (2, [2]), (3, [2, 1]), (3, [1, 2]), (3, [1, 1, 1]), (4, [2, 1, 1]), (4, [1, 1, 2])):
+            out.append(dict(family="splitbatch", code="SPLIT_V", axis=0, b=b, sizes=sizes))
+        for b in (1, 2, 3):
+            out.append(dict(family="splitbatch", code="SPLIT_V", axis=3, b=b, sizes=[1, 2]))
+            out.append(dict(family="splitbatch", code="SPLIT", axis=3, b=b, sizes=[2, 2]))
+            out.append(dict(family="splitbatch", code="SPLIT", axis=0, b=b, sizes=[1] * b))
     elif family == "resize":
         for code in ("RESIZE_BILINEAR", "RESIZE_NEAREST_NEIGHBOR"):
             for (ih, iw) in ((1, 1), (2, 2), (2, 3), (3, 3), (4, 2)):
@@ -286,6 +312,36 @@ ELT_SENT = ["If a fused activation function is present, the Output tensor must b
 
 def product_spec(p, c):
     """-> (spec, expected placement, the sentences that decide it)"""
+    if p["family"] == "avgpool":
+        ih, iw, kh, kw, sh, sw = p["ih"], p["iw"], p["kh"], p["kw"], p["sh"], p["sw"]
+        if p["pad"] == "SAME":
+            oh, ow = -(-ih // sh), -(-iw // sw)
+        else:
+            oh, ow = (ih - kh) // sh + 1, (iw - kw) // sw + 1
+        spec = unary_spec("AVERAGE_POOL_2D", [1, ih, iw, c], "int8", "Pool2DOptions", dict(Padding=0 if p["pad"] == "SAME" else 1, StrideW=sw, StrideH=sh, FilterWidth=kw, FilterHeight=kh,
+                                                                                           FusedActivationFunction=0), out_shape=[1, oh, ow, c])
+        return spec, p["ok"], "avgpool"
+    if p["family"] == "splitbatch":
+        b, sizes, axis = p["b"], p["sizes"], p["axis"]
+        cch = sum(sizes) if axis == 3 else 3
+        tensors = [T("input", [b, 2, 4, cch])]
+        outs = []
+        if p["code"] == "SPLIT_V":
+            tensors += [T("sizes", [len(sizes)], "int32", None, None, dict(values=sizes)), T("axis", [], "int32", None, None, dict(values=[axis]))]
+            ins = [0, 1, 2]
+            opts = dict(table="SplitVOptions", fields=dict(NumSplits=len(sizes)))
+        else:
+            tensors += [T("axis", [], "int32", None, None, dict(values=[axis]))]
+            ins = [1, 0]
+            opts = dict(table="SplitOptions", fields=dict(NumSplits=len(sizes)))
+        for k, sz in enumerate(sizes):
+            shp = [b, 2, 4, cch]
+            shp[axis] = sz
+            tensors.append(T("output" if k == 0 else "output_%d" % k, shp))
+            outs.append(len(tensors) - 1)
+        spec = dict(tensors=tensors, ops=[dict(code=p["code"], inputs=ins, outputs=outs, opts=opts, version=2)], inputs=[0], outputs=outs)
+        ok = all(tensors[o]["shape"][0] == 1 for o in outs)
+        return spec, ok, "splitbatch"
     if p["family"] == "eltwise":
         def q(dt):
             return (0.05, 128) if dt == "uint8" else (0.05, 0)
@@ -446,7 +502,9 @@ def oracle_publication(case, rec=None):
         diff = [l for l in difflib.unified_diff(com, gen, "SUPPORTED_OPS.md (committed)", "generated", lineterm="", n=0)][:14]
         raise Violation("C16/report/stale", "the committed SUPPORTED_OPS.md differs from the report the compiler generates: %s" % " | ".join(diff), case)
     text = "\n".join(gen)
-    for k, s in list(SENT.items()) + [("eltwise", e) for e in ELT_SENT]:
+    for k, s in list(SENT.items()) + [("eltwise", e) for e in ELT_SENT] + [("avgpool", "For stride width greater than 3, valid padding needs to be used."),
+                                                                              ("avgpool", "Stride h must be between 1 and 3 when ofm height is greater than 1"),
+                                                                              ("splitbatch", "OFM Tensor batch size must be 1 and each OFM must be taken from a single batch of the IFM")]:
         if s not in text:
             raise Violation("C16/report/sentence-missing", "the report no longer contains the sentence the enforcement table keys on: %r" % s, case)
     if rec is not None:
@@ -458,6 +516,8 @@ def parts(ctx):
     q = ctx.quick
     prods = [Part("product-tconv%02d" % i, products, ("tconv", i, 4, 0)) for i in range(4)] + [Part("product-resize%02d" % i, products, ("resize", i, 6, 180 if q else 0)) for i in range(6)]
     prods += [Part("product-eltwise%02d" % i, products, ("eltwise", i, 4, 128 if q else 0)) for i in range(4)]
+    prods += [Part("product-avgpool%02d" % i, products, ("avgpool", i, 2, 60 if q else 0)) for i in range(2)]
+    prods += [Part("product-splitbatch", products, ("splitbatch", 0, 1, 0))]
     return prods + [Part("grid%02d" % i, grid, (i, 12)) for i in range(12)] + [Part("place%02d" % i, placements, (i, 6 if q else 400)) for i in range(3 if q else 15)] + [Part("publication", publication, None)]
 
 
